@@ -443,9 +443,15 @@ impl<C: Config> Engine<C> {
                 }
             }
 
+            #[cfg(feature = "verif_hooks")]
+            crate::engine::verif::yield_point("query_for::before_snapshot").await;
+
             // acquire read snapshot
             let mut snapshot =
                 self.get_read_snapshot::<Q>(query.id.compact_hash_128()).await;
+
+            #[cfg(feature = "verif_hooks")]
+            crate::engine::verif::yield_point("query_for::before_fast_path").await;
 
             let slow_path = match snapshot.fast_path(caller).await {
                 // go to slow path
@@ -487,6 +493,10 @@ impl<C: Config> Engine<C> {
             // now the `query` state is held in computing state.
             // if `guard` is dropped without defusing, the state will
             // be restored to previous state (either computed or absent)
+            #[cfg(feature = "verif_hooks")]
+            crate::engine::verif::yield_point("query_for::before_write_guard")
+                .await;
+
             let Some((snapshot, guard)) =
                 snapshot.get_write_guard(slow_path, caller).await
             else {
@@ -494,7 +504,13 @@ impl<C: Config> Engine<C> {
                 continue;
             };
 
+            #[cfg(feature = "verif_hooks")]
+            crate::engine::verif::yield_point("query_for::before_process").await;
+
             snapshot.process_query(query.query, caller, guard).await;
+
+            #[cfg(feature = "verif_hooks")]
+            crate::engine::verif::yield_point("query_for::after_process").await;
 
             status = QueryStatus::Repaired;
 
